@@ -648,7 +648,7 @@ class Interp:
         for d in reversed(s.decorator_list):
             dec = self.eval(d, fr)
             v = self.apply_decorator(dec, v, fr)
-        fr.locals[s.name] = v
+        self.store_name(s.name, v, fr)
 
     def make_function(self, node, fr, name=None):
         modname = fr.globs.get("__name__", "?")
@@ -782,9 +782,15 @@ class Interp:
             raise Unsupported(f"assignment target {type(t).__name__}")
 
     def store_name(self, name, v, fr):
+        if fr.mangle and fr.func is None:
+            name = self.mangle_name(name, fr)
         fr.locals[name] = v
 
     def load_name(self, name, fr):
+        if fr.mangle and name.startswith("__") and not name.endswith("__"):
+            m = self.mangle_name(name, fr)
+            if m in fr.locals:
+                return fr.locals[m]
         if name in fr.locals:
             return fr.locals[name]
         c = fr.closure
